@@ -40,6 +40,7 @@ def evalCond (cfg : Cfg) : Cond → Bool
   | .introspect => cfg.introspect
   | .sticky => cfg.sticky
   | .stickyEcho => !cfg.stickyEcho.isEmpty
+  | .proxyHint => cfg.proxyHint
 
 def intParam (cfg : Cfg) : IntParam → Option Int
   | .maxRequestBytes => cfg.maxRequestBytes
